@@ -237,17 +237,33 @@ Proof. exact cm_add_before_start_accepted. Qed.
 Print Assumptions C12_closer_add_before_start_accepted.
 
 (* CLOSE REACHES THE RUNNERS (fixed code), however the manager was assembled - constructor, Add,
-   or both: whenever runner goroutines exist one of them is the close-runner, and while it runs a
-   closed closeCh (= Close was called) enables its return, whose collection cancels the context
-   of all the others (C12_cancel_on_first_return). *)
+   or both - along every CALM schedule ([run_calm]: Run is not started while an Add call sits
+   between its test and its append): whenever runner goroutines exist one of them is the
+   close-runner, and while it runs a closed closeCh (= Close was called) enables its return, whose
+   collection cancels the context of all the others (C12_cancel_on_first_return).  A calm run is
+   a run ([run_calm_run]). *)
 Theorem C12_close_reaches_runners : forall grace bs cls es s,
-  run_c Fixed (new_cm grace bs cls) es = Some s ->
+  run_calm Fixed (new_cm grace bs cls) es = Some s ->
   r_procs (inner s) <> [] ->
   exists i p, nth_error (r_procs (inner s)) i = Some p /\ p_beh p = CloseRunner /\
     (p_st p = Running -> r_closech (inner s) = true ->
        exists s', step_c Fixed s (CInner (RRunnerReturn i)) = Some s').
 Proof. exact cm_close_reaches_runners. Qed.
 Print Assumptions C12_close_reaches_runners.
+
+(* ... and why the discipline is needed, ON THE CURRENT CODE: Run decides from an unlocked read of
+   len(mngr.runners) whether to add the close-runner.  Add passes its tests on an empty manager,
+   Run reads 0, Add appends and returns nil, the inner manager starts: one runner waiting for its
+   context, Close called, no close-runner - the runner cannot return and Close stays blocked. *)
+Theorem C12_close_reaches_runners_refuted :
+  exists s, run_c Fixed (new_cm false [] []) add_watcher_race = Some s /\
+            map p_beh (r_procs (inner s)) = [OnCancel None] /\
+            r_closech (inner s) = true /\ r_cancelled (inner s) = false /\
+            nth_error (closes s) 0 = Some KB /\ c_stopped s = false /\
+            step_c Fixed s (CInner (RRunnerReturn 0)) = None /\
+            step_c Fixed s (CCloseStep 0) = None.
+Proof. exact cm_close_reaches_runners_refuted. Qed.
+Print Assumptions C12_close_reaches_runners_refuted.
 
 (* The boolean oracle evaluated on the implementation's stamped trace decides the trace
    specification of Spec.v; multiset equality of error lists is decided by [msetb]. *)
